@@ -293,3 +293,73 @@ def _choice_check(prop: str, quick, thorough):
 
 CHECKS["C12"] = _choice_check("C12", (160, 50, 120, 50, 24), (6000, 900, 4000, 900, 40))
 CHECKS["C14"] = _choice_check("C14", (160, 50, 120, 50, 24), (6000, 900, 4000, 900, 40))
+
+
+# ------------------------------------------------------------------------- clisim (C19)
+
+ASSUME_CLI = [
+    "the process boundary of the CLI is stubbed: isla.cli.main(*argv, stdout=, stderr=) runs in-process in a per-run sandbox directory (own cwd and HOME); a sample of scripts is re-run as real `python -m isla` subprocesses in the thorough tier",
+    "positional FILES are passed after all options (argparse does not accept interleaved positionals); .islarc is absent",
+    "exit codes are judged against Oracle-G/Oracle-S on the bytes actually on disk; for an input file ending in a newline both readings (with / without that newline) are accepted",
+    "under an injected Z3 fault a rejecting exit code (1) is accepted; a traceback or an accepting exit code for an invalid input never is",
+]
+
+
+def _cli_summary(lines):
+    s = _solversim_summary("C19x") if False else None
+    fired: Dict[str, int] = {}
+    stats: Dict[str, int] = {}
+    inconclusive: Dict[str, int] = {}
+    digests = set()
+    nontrivial = set()
+    phases: Dict[str, int] = {}
+    samples = []
+    virtual = 0.0
+    for l in lines:
+        r = l["record"]
+        phases[r.get("phase", "dry")] = phases.get(r.get("phase", "dry"), 0) + 1
+        for k, v in (r.get("fired") or {}).items():
+            fired[k] = fired.get(k, 0) + v
+        for k, v in (r.get("stats") or {}).items():
+            stats[k] = stats.get(k, 0) + v
+        for inc in r.get("inconclusive") or []:
+            key = ":".join(str(inc).split(":")[:2])
+            inconclusive[key] = inconclusive.get(key, 0) + 1
+        virtual += r.get("virtual_s", 0.0)
+        digests.add(r.get("digest"))
+        if (r.get("stats") or {}).get("commands", 0) >= 2:
+            nontrivial.add(r.get("digest"))
+        if len(samples) < 3 and "plan" in l:
+            p = l["plan"]
+            samples.append({"run_seed": l.get("run_seed"), "phase": l.get("phase"), "grammar": p["grammar"], "constraints": p["formula_texts"],
+                            "grammar_format": p["grammar_format"], "constraint_formats": p["constraint_formats"], "script": [o[0] for o in p["ops"]],
+                            "faults": p["faults"], "outcomes": (r.get("outcomes") or [])[:10]})
+    return {
+        "evaluations": len(lines),
+        "distinct_nontrivial": len(nontrivial),
+        "rule": "one evaluation = one simulated CLI session: a sandbox directory with grammar (.bnf / .py / -g) and 1-2 constraints (.isla files and/or -c), a script of 2-6 commands (solve with -n/-d/--tree/-f/-s/-t/-k/-w/--unique-trees/--unsat-support, check, find, parse [-o], repair, mutate, usage errors, specs malformed by construction) executed in-process under the clock/PRNG/Z3 seams; three quarters of the seeds are re-executed with storage faults (empty / torn / lost / directory / garbage bytes / NUL / BOM / CRLF / extra newlines / duplicate input) placed between writing a file and the command that reads it, or Z3/clock faults inside commands. Non-trivial = at least two commands completed; distinct = distinct digest over seam events and command outcomes.",
+        "samples": samples or [{"note": "none"}],
+        "commands_executed": stats.get("commands", 0),
+        "runs_fault_free": phases.get("dry", 0),
+        "runs_faulted": phases.get("faulted", 0),
+        "faults_fired": fired,
+        "oracle_stats": stats,
+        "inconclusive": inconclusive,
+        "virtual_seconds_simulated": round(virtual, 1),
+        "real_components": ["isla.cli (argument parsing, file handling, exit codes)", "ISLaSolver", "file system (real files in a sandbox directory)"],
+        "stubbed_components": ["process boundary (in-process main)", "Z3 wall-clock timeout -> rlimit", "time in isla.solver", "random in isla.*"],
+    }
+
+
+def _cli_check(tier, runs, budget, nproc):
+    thorough = tier == "thorough"
+    n = runs or (8000 if thorough else 220)
+    b = budget or (1800 if thorough else 110)
+    return driver.run_check(
+        "C19", tier, "clisim", {}, n, b, wall=240.0, nproc_total=nproc,
+        level_text={"category": "exploration", "assumptions": ASSUME_CLI},
+        summarize=_cli_summary,
+    )
+
+
+CHECKS["C19"] = _cli_check
